@@ -68,6 +68,9 @@ class RefTimeString(ModelObject):
     def __init__(self, has_marker):
         self.has_marker = has_marker
 
+    def pv_isinstance(self, tname):
+        return tname == "str"
+
     def pv_contains(self, cx, item):
         if item == "reference_time":
             return self.has_marker
